@@ -78,6 +78,10 @@ def rule_directed(m, uni, rng, tier):
         for b in pal[:8]:
             for c in pal[:8]:
                 out.append(m.Ite(a, b, c))
+    # an atom whose simplification is not an atom (F51): a read from a stored array value
+    from pysmt.typing import BVType as _BV
+    sel = m.Select(m.Store(m.Array(_BV(2), m.FALSE()), m.BV(0, 2), m.And(pal[0], pal[1])), m.BV(0, 2))
+    extra = [m.Or(pal[0], m.Not(sel)), m.Iff(pal[1], sel), m.And(pal[0], m.Not(sel)), m.Not(sel), m.Ite(sel, pal[0], pal[1])]
     base = list(out)
     # negated roots, one more level, n-ary
     for f in rng.sample(base, 120 if tier == "quick" else len(base)):
@@ -90,7 +94,7 @@ def rule_directed(m, uni, rng, tier):
     if tier == "quick":
         keep = set(range(0, len(base), 3))
         out = [f for i, f in enumerate(out) if i >= len(base) or i in keep or rng.random() < 0.15]
-    return out
+    return out + extra
 
 
 def ack_directed(m, uni):
@@ -453,8 +457,15 @@ def search_cnf(ctx, env, runs, shape_ans, ig):
             if bad is not None or sa == "false":
                 kind = "negated-constant" if (bad is not None and bad.is_not() and bad.arg(0).is_bool_constant()) else \
                        "constant" if (bad is not None and bad.is_bool_constant()) else \
-                       "non-atomic-simplification" if (bad is not None and bad.is_not()) else "other"
-                ctx.report_s({"oracle": "shape", "proc": r.which, "literal": kind},
+                       "negated-non-atom" if (bad is not None and bad.is_not()) else "other"
+                # where does it come from: an atom of the input whose simplification is not a literal
+                src = "other"
+                for a in bool_atoms(f, env):
+                    sa_ = env.simplifier.simplify(a)
+                    if not sa_.is_bool_constant() and not is_literal(sa_, env) and bad is not None \
+                            and bad.is_not() and bad.arg(0) is sa_:
+                        src = "simplify(%s)" % root_name(a)
+                ctx.report_s({"oracle": "shape", "proc": r.which, "literal": kind, "source": src},
                              "%s: a clause member is not a literal: %s" % (r.which, bad),
                              {"proc": r.which, "formula": semantic.readable(f), "index": r.case.idx,
                               "stream": r.case.stream, "clauses": sorted(sorted(str(l) for l in c) for c in r.cs),
